@@ -495,9 +495,10 @@ def warm_all(extract: bool = True) -> None:
         if ext in seen or "password" in name:
             continue
         seen.add(ext)
-        try:
-            for r in extractor_for(name)(io.BytesIO(data), None):
-                r.get_full_text()
-                r.to_json()
-        except Exception:
-            pass
+        with K.cpu_guard(60):
+            try:
+                for r in extractor_for(name)(io.BytesIO(data), None):
+                    r.get_full_text()
+                    r.to_json()
+            except Exception:
+                pass
